@@ -385,12 +385,12 @@ class Dataset:
 
 def make_dataset(rng, root, n_samples=2, n_loci=4, ploidy=(2, 4), depth=(6, 20), n_contigs=1, contig_len=500, hostile=0.0, err=0.0,
                  flags=False, mapq_values=(60,), paired=0.0, rgs_per_sample=(1, 1), samples_per_bam=1, snv_range=(0, 6),
-                 multi_allelic=0.3, read_len=(15, 45), mapq_threshold=20, mate_disagree=0.3):
+                 multi_allelic=0.3, read_len=(15, 45), mapq_threshold=20, mate_disagree=0.3, locus_len=(20, 60)):
     """General purpose dataset.  With flags=True a fraction of alignments carry filterable flags and MAPQ values around the
     threshold; with paired>0 that fraction of reads are pairs with overlapping mates sharing a qname."""
     ds = Dataset(root)
     ds.contigs = make_contigs(rng, n_contigs, contig_len)
-    ds.loci, ds.snvs = make_loci(rng, ds.contigs, n_loci, snv_range=snv_range, multi_allelic=multi_allelic)
+    ds.loci, ds.snvs = make_loci(rng, ds.contigs, n_loci, min_len=locus_len[0], max_len=locus_len[1], snv_range=snv_range, multi_allelic=multi_allelic)
     ds.samples = ["S%d" % (i + 1) for i in range(n_samples)]
     ploidies = list(ploidy) if isinstance(ploidy, (list, tuple)) else [ploidy]
     groups = [ds.samples[i : i + samples_per_bam] for i in range(0, n_samples, samples_per_bam)]
